@@ -392,13 +392,16 @@ class Check:
         are returned in case order.  A crashing/hanging worker is a machinery
         failure, except that per-case exceptions are caught inside the worker
         and returned as {"_error": ...}."""
+        import uuid
+
         nproc = min(nproc or NCPU, max(1, len(cases)))
         parts = [cases[i::nproc] for i in range(nproc)]
+        rid = uuid.uuid4().hex[:10]  # unique per call: pmap may be called from several threads
         files = []
         procs = []
         for i, part in enumerate(parts):
-            fin = self.path(f"w_in_{self._replay_n}_{i}.json")
-            fout = self.path(f"w_out_{self._replay_n}_{i}.json")
+            fin = self.path(f"w_in_{rid}_{i}.json")
+            fout = self.path(f"w_out_{rid}_{i}.json")
             with open(fin, "w") as f:
                 json.dump({"cases": part, "common": common}, f)
             files.append((fin, fout))
